@@ -67,7 +67,12 @@ func (c *SubscriptionManager) AddSubscription(remoteDevice api.DeviceRemoteInter
 	defer c.mux.Unlock()
 
 	for _, item := range c.subscriptionEntries {
-		if reflect.DeepEqual(item.ServerFeature, serverFeature) && reflect.DeepEqual(item.ClientFeature, clientFeature) {
+		// the same client is the same address on the same connection. Do not compare
+		// the remote feature objects themselves: a deep comparison reads, without their
+		// locks, whatever they refer to (entity, device, ...) of every subscribed device
+		if reflect.DeepEqual(item.ServerFeature, serverFeature) &&
+			item.ClientFeature.Device().Ski() == remoteDevice.Ski() &&
+			reflect.DeepEqual(item.ClientFeature.Address(), clientFeature.Address()) {
 			return fmt.Errorf("requested subscription is already present")
 		}
 	}
